@@ -31,7 +31,7 @@ allvars == <<mvars, gvars>>
 
 EmptySlot == [nodes |-> <<>>, ch |-> {}, pa |-> {}, byId |-> {}, byName |-> {}, nextId |-> 0,
               atk |-> <<>>, atkById |-> {}, nextAtk |-> 0, reached |-> {}, entry |-> {}, compBy |-> {},
-              exists |-> FALSE, hasModel |-> FALSE]
+              exists |-> FALSE, hasModel |-> FALSE, hasLang |-> FALSE]
 
 NodeHs(s)  == {s.nodes[k].h : k \in DOMAIN s.nodes}
 AtkHs(s)   == {s.atk[k].h : k \in DOMAIN s.atk}
@@ -68,7 +68,7 @@ Generated(nh0) ==
   IN [EmptySlot EXCEPT !.nodes = nodes, !.ch = es, !.pa = es,
                        !.byId = {<<nodes[k].id, nodes[k].h>> : k \in DOMAIN nodes},
                        !.byName = {<<NameOf(nodes[k]), nodes[k].h>> : k \in DOMAIN nodes},
-                       !.nextId = Len(nodes), !.exists = TRUE, !.hasModel = TRUE]
+                       !.nextId = Len(nodes), !.exists = TRUE, !.hasModel = TRUE, !.hasLang = TRUE]
 
 (* ----------------------- effects of the public calls --------------------- *)
 DoAddNode(s, h, kind, newId) ==
@@ -125,6 +125,12 @@ MapH(s, off) ==
 Unbound(s) == LET ns == [k \in DOMAIN s.nodes |-> [s.nodes[k] EXCEPT !.asset = 0]] IN
               [s EXCEPT !.nodes = ns, !.byName = {<<NameOf(ns[k]), ns[k].h>> : k \in DOMAIN ns}, !.hasModel = FALSE]
 
+\* a loaded graph is a fresh graph to which the stored nodes and attackers were added with their ids:
+\* it has no language graph and its counters restart above the largest stored id
+Reloaded(s) == [s EXCEPT !.hasLang = FALSE,
+                         !.nextId = IF s.nodes = <<>> THEN 0 ELSE Max(NodeIds(s)) + 1,
+                         !.nextAtk = IF s.atk = <<>> THEN 0 ELSE Max(GAtkIds(s)) + 1]
+
 (* ------------------------------ actions ---------------------------------- *)
 Set(g, s, label) == gS' = [gS EXCEPT ![g] = s] /\ gAct' = label /\ UNCHANGED mvars
 BumpG(n) == gNextH' = gNextH + n
@@ -134,7 +140,7 @@ Generate(g) ==
   /\ Set(g, Generated(gNextH), [op |-> "Generate", g |-> g, h0 |-> gNextH, res |-> "ok"])
   /\ BumpG(Len(GenNodes(gNextH)))
 Regenerate(g) ==
-  /\ gS[g].exists /\ g = "main" /\ gS[g].hasModel /\ vAssets # <<>> /\ Generable
+  /\ gS[g].exists /\ g = "main" /\ gS[g].hasModel /\ gS[g].hasLang /\ vAssets # <<>> /\ Generable
   /\ Len(GenNodes(gNextH)) <= MaxNodes /\ Len(GenNodes(gNextH)) > 0
   /\ Set(g, Generated(gNextH), [op |-> "Regenerate", g |-> g, h0 |-> gNextH, res |-> "ok"])
   /\ BumpG(Len(GenNodes(gNextH)))
@@ -171,7 +177,7 @@ AddGAttacker(g, reqId) ==
   /\ gS[g].exists /\ Len(gS[g].atk) < GMaxAtk
   /\ IF reqId # NoId /\ reqId \in GAtkIds(gS[g])
      THEN Set(g, gS[g], [op |-> "AddGAttacker", g |-> g, h |-> gNextH, reqId |-> reqId, res |-> "exc"])
-     ELSE Set(g, DoAddAttacker(gS[g], gNextH, IF reqId # NoId THEN reqId ELSE gS[g].nextAtk, "ga", {}, {}),
+     ELSE Set(g, DoAddAttacker(gS[g], gNextH, IF reqId # NoId THEN reqId ELSE gS[g].nextAtk, IF reqId # NoId THEN "gb" ELSE "ga", {}, {}),
               [op |-> "AddGAttacker", g |-> g, h |-> gNextH, reqId |-> reqId, res |-> "ok"])
   /\ BumpG(1)
 RemoveGAttacker(g, a) ==
@@ -196,8 +202,7 @@ DeepCopy ==
 SaveLoad(g, fmt, withModel) ==
   /\ gS[g].exists /\ g = "main"
   /\ \A k \in DOMAIN gS[g].nodes : gS[g].nodes[k].asset # 0       \* asset-less nodes have id-derived names
-  /\ NoRepeat([k \in DOMAIN gS[g].atk |-> gS[g].atk[k].name])      \* attackers are keyed by name in the file
-  /\ gS' = [gS EXCEPT ![g] = IF withModel THEN MapH(gS[g], gNextH) ELSE Unbound(MapH(gS[g], gNextH))]
+  /\ gS' = [gS EXCEPT ![g] = Reloaded(IF withModel THEN MapH(gS[g], gNextH) ELSE Unbound(MapH(gS[g], gNextH)))]
   /\ gAct' = [op |-> "SaveLoad", g |-> g, fmt |-> fmt, withModel |-> withModel, off |-> gNextH, res |-> "ok"]
   /\ gNextH' = gNextH + 2000 /\ UNCHANGED mvars
 \* in-place mutation of per-node data (C14 independence)
